@@ -7,7 +7,7 @@ import ast
 import string
 
 from ..index import AnalysisError, dotted, function_stmts, parent, walk_no_nested
-from ..util import callee_last, calls_in, kw, txt
+from ..util import arg, callee_last, calls_in, kw, txt
 
 EXPLANATION = (
     "Static table analysis of pandera/io/pandas_io.py and pandera/schema_statistics/pandas.py (ast only). For the "
@@ -23,7 +23,7 @@ EXPLANATION = (
     "probe frames, dtype string aliases resolving at run time."
 )
 LEVEL_RULE = "one obligation per (attribute, hop) / template slot / dictionary key found in the current tree"
-FLOORS = {"R1": 90, "R2": 14, "R3": 20, "R4": 3, "R5": 5, "R6": 3}
+FLOORS = {"R1": 90, "R2": 14, "R3": 20, "R4": 3, "R5": 5, "R6": 3, "R7": 3}
 
 IO = "pandera/io/pandas_io.py"
 STATS = "pandera/schema_statistics/pandas.py"
@@ -242,7 +242,75 @@ def _source_attr(e):
     return (None, None)
 
 
+def r7_aggregate_properties(ctx):
+    """A property whose getter aggregates over the child components (MultiIndex.coerce = own flag OR any level's flag)
+    is not a stored attribute: writing it out as an option of the parent and reading it back sets the parent's own flag,
+    which then applies to every child.  Serialisers read stored attributes / per-component values only."""
+    ix = ctx.ix
+    agg = {}
+    for m in ix.modules.values():
+        if not m.path.startswith("pandera/api/") or "pyspark" in m.path:
+            continue
+        for c in m.classes.values():
+            for name, lst in c.methods.items():
+                for g in lst:
+                    if not g.is_property() or any("setter" in txt(d) for d in g.decorators):
+                        continue
+                    over_children = any(isinstance(n, (ast.comprehension, ast.For)) and any(
+                        isinstance(a, ast.Attribute) and txt(a.value) == "self" and a.attr in ("indexes", "columns") for a in ast.walk(n.iter))
+                        for n in ast.walk(g.node))
+                    if over_children:
+                        agg.setdefault(c.name, set()).add(name)
+    ctx.stats["aggregate_properties"] = {k: sorted(v) for k, v in agg.items()}
+    mi_props = agg.get("MultiIndex", set())
+    if not mi_props:
+        raise AnalysisError("no aggregate property found on MultiIndex (expected `coerce`)")
+    n = 0
+    for mp in ("pandera/io/pandas_io.py", "pandera/schema_statistics/pandas.py"):
+        m = ix.module(mp)
+        funcs = list(m.all_functions)
+
+        def may_be_multiindex(f, x, depth=0):
+            t = txt(x)
+            if t.endswith(".index"):
+                return True
+            if isinstance(x, ast.Name) and depth < 3:
+                if x.id in f.params:
+                    i = f.params.index(x.id)
+                    for g in funcs:
+                        for c in calls_in(g.node, nested=True):
+                            if callee_last(c) == f.name:
+                                a = arg(c, i, x.id)
+                                if a is not None and may_be_multiindex(g, a, depth + 1):
+                                    return True
+                for st_ in walk_no_nested(f.node):
+                    if isinstance(st_, ast.Assign) and any(isinstance(tt, ast.Name) and tt.id == x.id for tt in st_.targets):
+                        if may_be_multiindex(f, st_.value, depth + 1):
+                            return True
+            return False
+
+        for f in funcs:
+            for node in walk_no_nested(f.node):
+                recv = prop = None
+                if isinstance(node, ast.Attribute) and isinstance(node.ctx, ast.Load) and node.attr in mi_props:
+                    recv, prop = node.value, node.attr
+                elif isinstance(node, ast.Call) and isinstance(node.func, ast.Name) and node.func.id == "getattr" and len(node.args) >= 2 \
+                        and isinstance(node.args[1], ast.Constant) and node.args[1].value in mi_props:
+                    recv, prop = node.args[0], node.args[1].value
+                if recv is None:
+                    continue
+                n += 1
+                bad = may_be_multiindex(f, recv)
+                ctx.ob("R7", f, f"`{txt(node)[:60]}` is read from a single component", not bad,
+                       "receiver is a column / index level / container, whose value is stored" if not bad else
+                       f"`{txt(recv)}` may be a MultiIndex, whose `{prop}` aggregates over its levels (own flag or any level's): serialising it as "
+                       "an option of the MultiIndex makes the re-read schema apply it to every level - exec(to_script(S)).schema != S and verdicts differ",
+                       f.loc(node))
+    ctx.stats["aggregate_property_reads"] = n
+
+
 def run(ctx):
+    r7_aggregate_properties(ctx)
     ix = ctx.ix
     io = ix.module(IO)
     st = ix.module(STATS)
@@ -436,6 +504,34 @@ def run(ctx):
         reads_opts = any(isinstance(n, ast.Constant) and n.value == "options" for n in ast.walk(f3.node))
         ctx.ob("R5", f3, f"{name} consumes the 'options' entry", reads_opts,
                "handled" if reads_opts else "options written by parse_checks are passed to the Check constructor as a statistic")
+    # every option that the writer emits is restored by each reader (generic loop over the mapping, or an explicit list)
+    from ..util import Expander
+    for name, f3 in (("_deserialize_check_stats", des_cs), ("parse_check_statistics", fn(st, "parse_check_statistics"))):
+        ex3 = Expander(f3.node)
+        restored = None
+        for loop in [n for n in walk_no_nested(f3.node) if isinstance(n, ast.For)]:
+            sets = [c for c in calls_in(loop) if callee_last(c) == "setattr" and len(c.args) == 3]
+            if not sets:
+                continue
+            it = loop.iter
+            if isinstance(it, ast.Call) and callee_last(it) == "items":
+                restored = "ALL"
+            else:
+                lit = ex3.expand(it)
+                if isinstance(lit, (ast.Tuple, ast.List, ast.Set)) and all(isinstance(e, ast.Constant) for e in lit.elts):
+                    restored = {e.value for e in lit.elts}
+                else:
+                    mod_assign = f3.module.assigns.get(it.id) if isinstance(it, ast.Name) else None
+                    if isinstance(mod_assign, (ast.Tuple, ast.List, ast.Set)) and all(isinstance(e, ast.Constant) for e in mod_assign.elts):
+                        restored = {e.value for e in mod_assign.elts}
+        if restored is None:
+            ctx.ob("R5", f3, f"{name} restores the check options", False, "no loop applying the options with setattr")
+        else:
+            missing = [] if restored == "ALL" else sorted(set(opt_keys) - restored)
+            ctx.ob("R5", f3, f"{name} restores every option the writer emits", not missing,
+                   "all written options are applied" if not missing else
+                   f"parse_checks writes {sorted(opt_keys)} but the reader only restores {sorted(restored)}: {missing} silently revert to their "
+                   "defaults on a YAML/JSON round trip")
     # keying: statistics keyed by check name only
     keyed = []
     for n in walk_no_nested(pc.node):
